@@ -87,9 +87,12 @@ def both(text, with_comments=False):
     return s
 
 
-def uncertain(res):
+def uncertain(res, err=None):
     """inputs on which the reference model itself is not authoritative
-    (Annex B forms, escaped identifiers, exotic regex flags)"""
+    (Annex B forms, escaped identifiers, exotic regex flags, inputs the
+    specification can be read either way on)"""
+    if err is not None and getattr(err, 'uncertain', False):
+        return True
     if res is None:
         return False
     return bool(res.flags & {'annexb_octal', 'annexb_octal_escape', 'escaped', 'escaped_identifier',
